@@ -40,3 +40,7 @@ void cpy_ok(void) { char b[8]; strcpy(b, "abcdefg"); touch(b); }
 struct WithBuf { int a; char name[8]; int z; };
 void fld_bad(struct WithBuf *w, int i) { sprintf(w->name, "%d", i); }
 void fld_ok(struct WithBuf *w, int i) { sprintf(w->name, "%c%c", i, i); }
+/* integer division (C08 R7): the divisor must be shown non-zero where it is used */
+unsigned div_bad(unsigned a, unsigned b) { if (b == 0) return 0; if (a > 100) b /= 4; return a / b; }
+unsigned div_ok(unsigned a, unsigned b) { if (a > 100) b /= 4; if (b == 0) return 0; return a / b; }
+unsigned div_ok2(unsigned a, unsigned b) { unsigned f = 1 + b / 58; return (a + f - 1) / f; }
